@@ -167,6 +167,92 @@ def gen_cases(rng, count, bvals):
             else: cases.append((op, 0, 0, n, None))
     return cases
 
+# ---- composition: stack programs whose intermediate results are used as operands and compared without leaving the
+# ---- implementation.  The same value is reached by different routes (general-path arithmetic, machine-integer conversion,
+# ---- text, digits) and must compare equal; ordering must match Python's.
+IMMED_EDGES = [(1 << k) + d for k in (29, 30, 31, 32, 61, 62, 63, 64) for d in (-2, -1, 0, 1, 2)]
+def lit(rng, v):
+    """one of the constructors that can make v"""
+    ch = ['h', 's']
+    if -2**63 <= v < 2**63: ch += ['n', 'n']
+    k = rng.choice(ch)
+    return {'h': 'x' + hx(v), 's': 's%d' % v, 'n': 'n%d' % v}[k]
+def route(rng, t, depth=0):
+    """tokens that compute t"""
+    r = rng.random()
+    if depth > 2 or r < 0.18: return [lit(rng, t)]
+    def sub(v): return route(rng, v, depth + 1)
+    big = rng.choice([1, 2, 3, 5, 1 << 31, 1 << 32, (1 << 62) - 1, 1 << 62, 1 << 63, (1 << 64) + 1, rng.getrandbits(rng.choice([3, 30, 62, 64, 100]))  + 1])
+    if rng.random() < 0.5: big = -big
+    k = rng.randrange(12)
+    if k == 0: return sub(t - big) + sub(big) + ['+']
+    if k == 1: return sub(t + big) + sub(big) + ['-']
+    if k == 2: return sub(t * big) + sub(big) + ['q']
+    if k == 3:
+        m = abs(big) + abs(t) + 1
+        return sub(t + m * rng.choice([1, 2]) if t >= 0 else t - m * rng.choice([1, 2])) + sub(m) + ['r'] if t != 0 else sub(0)
+    if k == 4: return sub(-t) + ['~']
+    if k == 5: return sub(rng.choice([t, -t]) if t >= 0 else t) + (['a'] if t >= 0 else [])
+    if k == 6:
+        n = rng.choice([1, 2, 30, 31, 32, 33, 62, 64])
+        return sub(t << n) + ['>%d' % n]
+    if k == 7:
+        n = rng.choice([1, 2, 30, 31, 32])
+        if t % (1 << n) == 0: return sub(t >> n) + ['<%d' % n]
+        return sub(t) + ['c']
+    if k == 8:
+        # t = q*b + rem, as a product plus a remainder
+        b = abs(big) + 1
+        q, rem = tdiv(t, b)
+        return sub(q) + sub(b) + ['*'] + sub(rem) + ['+']
+    if k == 9: return sub(t) + sub(1) + ['*']
+    if k == 10:
+        return sub(t * abs(big)) + sub(abs(big) * rng.choice([1, 1, 2, 3])) + ['g'] if False else sub(t) + sub(0) + ['+']
+    return sub(t - 1) + sub(1) + ['+']
+def rpn_eval(tokens):
+    st = []; out = []
+    for tk in tokens:
+        c0 = tk[0]
+        if c0 == 'n' or c0 == 's': st.append(int(tk[1:]))
+        elif c0 == '<': st[-1] = st[-1] << int(tk[1:])
+        elif c0 == '>':
+            n = int(tk[1:]); a = st[-1]; st[-1] = (abs(a) >> n) * (-1 if a < 0 else 1)
+        elif c0 == 'p': st[-1] = st[-1] ** int(tk[1:])
+        elif tk == '~': st[-1] = -st[-1]
+        elif tk == 'a': st[-1] = abs(st[-1])
+        elif tk == 'c': pass
+        elif tk == '.': out.append(hx(st[-1]))
+        elif tk == '?':
+            x, y = st[-2], st[-1]
+            out.append('%d%d%d%d%d%d%d%d' % (x == y, x < y, x > y, y == x, y < x, y > x, x <= y, x != y))
+        elif tk in ('+', '-', '*', 'q', 'r', 'm', 'g'):
+            y = st.pop(); x = st.pop()
+            if tk == '+': z = x + y
+            elif tk == '-': z = x - y
+            elif tk == '*': z = x * y
+            elif tk == 'q': z = tdiv(x, y)[0]
+            elif tk == 'r': z = tdiv(x, y)[1]
+            elif tk == 'm': z = x % y
+            else: z = math.gcd(x, y)
+            st.append(z)
+        else: st.append(un(tk[1:]))
+    return ' '.join(out) + ' ' if out else ''
+def rpn_cases(rng, count, bvals):
+    res = []
+    for i in range(count):
+        r = rng.random()
+        if r < 0.5: t = rng.choice(IMMED_EDGES) * rng.choice([1, -1])
+        elif r < 0.8: t = rng.choice(bvals)
+        else: t = rnd_value(rng) >> rng.choice([0, 0, 100, 1000, 3000])
+        if abs(t).bit_length() > 1500: t >>= (abs(t).bit_length() - 1500) if t > 0 else 0
+        toks = route(rng, t)
+        k = rng.random()
+        if k < 0.6: toks += route(rng, t) + ['?', '.']            # same value by two routes
+        elif k < 0.85: toks += route(rng, t + rng.choice([-1, 1, -2, 2, 1 << 32, -(1 << 62)])) + ['?', '.']
+        else: toks += route(rng, rnd_value(rng) >> 2000) + ['?', '+', '.']
+        res.append(toks)
+    return res
+
 def line_of(case):
     op, a, b, n, c = case
     if op in ('pm', 'tplus'): return '%s %s %s %s' % (op, hx(a), hx(b), hx(c))
@@ -210,7 +296,9 @@ def main():
         core.append((op, a, b, 0, None))
     cases = core + gen_cases(rng, N, bvals)
     scases = string_cases(rng, N // 8, bvals)
-    ctx.log('cases: %d arithmetic, %d string' % (len(cases), len(scases)))
+    rcases = rpn_cases(rng, N // 4, bvals)
+    scases += [('rpn', ' '.join(t), rpn_eval(t), None) for t in rcases]
+    ctx.log('cases: %d arithmetic, %d string, %d composed' % (len(cases), len(scases), len(rcases)))
     chunks = NCPU * 2
     def run_part(variant, part, spart):
         """run one batch; returns (bad, nchecked, index of faulting case or None)"""
@@ -242,7 +330,7 @@ def main():
                 bad.append(('mismatch', variant, c, got, e))
         for (k, t, v, end), got in zip(spart, lines[len(part):]):
             nchk += 1
-            e = hx(v) if k == 'frstr' else '%s %d' % (hx(v), end)
+            e = v if k == 'rpn' else hx(v) if k == 'frstr' else '%s %d' % (hx(v), end)
             if got != e: bad.append(('mismatch', variant, (k, t), got, e))
         return bad, nchk, faulted
     def work(job):
